@@ -127,23 +127,8 @@ theorem update_assigns {α : Type} [Add α] [Sub α] [Mul α] [Div α] [Neg α] 
     ∧ i'.gap_abs = fabs (i'.cost_primal - i'.cost_dual)
     ∧ i'.gap_rel = i'.gap_abs / fmax 1 (fmin (fabs i'.cost_primal) (fabs i'.cost_dual))
     ∧ i'.ktratio = v.κ * τinv
-    ∧ i'.status = i.status ∧ i'.iterations = i.iterations := by
-  unfold Info.update at h
-  simp only [bind, Except.bind, pure, Except.pure] at h
-  repeat' split at h
-  all_goals first | (cases h; done) | skip
-  rename_i _ _ h1 _ _ h2 _ _ h3 _ _ h4 _ _ h5 _ _ h6 _ _ h7 _ _ h8
-  have e1 := normScaledE_ok _ _ _ h1
-  have e2 := normScaledE_ok _ _ _ h2
-  have e3 := normScaledE_ok _ _ _ h3
-  have e4 := normScaledE_ok _ _ _ h4
-  have e5 := normScaledE_ok _ _ _ h5
-  have e6 := normScaledE_ok _ _ _ h6
-  have e7 := normScaledE_ok _ _ _ h7
-  have e8 := normScaledE_ok _ _ _ h8
-  subst e1 e2 e3 e4 e5 e6 e7 e8
-  cases h
-  exact ⟨rfl, rfl, rfl, rfl, rfl, rfl, rfl, rfl, rfl, rfl, rfl⟩
+    ∧ i'.status = i.status ∧ i'.iterations = i.iterations :=
+  Info.update_fields i i' eq normq normb v r h
 
 section post
 variable {β : Type} [Mul β] [Div β] [OfNat β 0] [OfNat β 1]
@@ -248,18 +233,6 @@ theorem report_matches_point (p : Problem α n m) (sc : Scaling α n m)
 end field
 
 
-/-- `res_primal` as `Info.update` assigns it (dense counterpart; `normb` is the cached `‖b‖∞`) -/
-noncomputable def resPrimal {n m : ℕ} (p : Problem ℝ n m) (sc : Scaling ℝ n m) (xh : Fin n → ℝ)
-    (sh : Fin m → ℝ) (τ normb : ℝ) : ℝ :=
-  nrm (fun i => rz (p.scaled sc) xh sh τ i * (1 / sc.e i)) * (1 / τ)
-    / max 1 (normb + nrm (fun j => xh j * sc.d j) * (1 / τ) + nrm (fun i => sh i * (1 / sc.e i)) * (1 / τ))
-
-/-- `res_dual` as `Info.update` assigns it -/
-noncomputable def resDual {n m : ℕ} (p : Problem ℝ n m) (sc : Scaling ℝ n m) (xh : Fin n → ℝ)
-    (zh : Fin m → ℝ) (τ normq : ℝ) : ℝ :=
-  nrm (fun j => rx (p.scaled sc) xh zh τ j * (1 / sc.d j)) * (1 / τ) * (1 / sc.c)
-    / max 1 (normq + nrm (fun j => xh j * sc.d j) * (1 / τ) + nrm (fun i => zh i * sc.e i) * (1 / sc.c) * (1 / τ))
-
 /-- **[F/R] `C03.report_residuals`** (over `ℝ`).  The numbers reported as `r_prim`, `r_dual`
 *are* the documented normalised residuals of the returned point on the user's data:
 `‖Ax+s−b‖₂ / max(1, ‖b‖∞+‖x‖₂+‖s‖₂)` and `‖Px+Aᵀz+q‖₂ / max(1, ‖q‖∞+‖x‖₂+‖z‖₂)`. -/
@@ -271,26 +244,8 @@ theorem report_residuals {n m : ℕ} (p : Problem ℝ n m) (sc : Scaling ℝ n m
             / max 1 (normb + nrm (unX sc τ xh) + nrm (unS sc τ sh))
     ∧ resDual p sc xh zh τ normq
         = nrm (fun j => mulV p.P (unX sc τ xh) j + mulVT p.A (unZ sc τ zh) j + p.q j)
-            / max 1 (normq + nrm (unX sc τ xh) + nrm (unZ sc τ zh)) := by
-  have hτ' : (0:ℝ) ≤ 1 / τ := by positivity
-  have hcτ : (0:ℝ) ≤ 1 / τ * (1 / sc.c) := by positivity
-  constructor
-  · unfold resPrimal
-    rw [nrm_unX sc xh τ hτ, nrm_unS sc sh τ hτ, ← nrm_smul _ _ hτ']
-    congr 1
-    apply nrm_congr
-    intro i
-    exact (primal_residual_unscale p sc xh sh τ (fun i => (he i).ne') hτ.ne' i).symm
-  · unfold resDual
-    rw [nrm_unX sc xh τ hτ, nrm_unZ sc zh τ hc hτ, mul_assoc, ← nrm_smul _ _ hcτ]
-    have e1 : nrm (fun i => zh i * sc.e i) * (1 / sc.c) * (1 / τ)
-        = nrm (fun i => zh i * sc.e i) * (1 / τ * (1 / sc.c)) := by ring
-    rw [e1, ← nrm_neg]
-    congr 1
-    apply nrm_congr
-    intro j
-    rw [dual_residual_unscale p sc xh zh τ (fun j => (hd j).ne') hc.ne' hτ.ne' j]
-    ring
+            / max 1 (normq + nrm (unX sc τ xh) + nrm (unZ sc τ zh)) :=
+  res_identities p sc xh sh zh τ normb normq hd he hc hτ
 
 /-! ### non-vacuity -/
 
